@@ -1,4 +1,5 @@
 import SigmaVerif.Model.Ser
+import SigmaVerif.Lemmas.C06LogSource
 import SigmaVerif.Lemmas.C06Item
 import SigmaVerif.Lemmas.C06Det
 import SigmaVerif.Lemmas.C06Touch
@@ -36,6 +37,10 @@ What is proved, for every document (no bound on sizes or nesting):
 * a top-level list of definitions that are all written as bare scalars (excluded from `Good`) is
   written as the list of the scalars, which loads as ONE keyword item: another object, same meaning,
   dict fixed point iff it has at least two elements (`scalar_list_roundtrip`).
+* the log source: every attribute that was given - the empty string included - is written, the written
+  form loads to the same log source, and a filter meets exactly the same rules after both were written and
+  loaded again (`logsource_roundtrip`, `logsource_filter_application_preserved`); writing by truthiness
+  instead would change which rules a filter meets (`logsource_empty_string_matters`).
 Partial: such a list *nested* inside another list of definitions is covered by witnesses only.
 -/
 namespace SigmaVerif.Props.C06
@@ -450,5 +455,44 @@ theorem detection_meaning_preserved (cx : Rule.Ctx) (p : PDef) (d : Det) (n : Na
   exact ⟨q, h1, by rw [detBE_eq cx q d n h2 hq, detBE_eq cx p d n h hn], detBE_eq cx p d n h hn⟩
 
 example : pdepth (.list [.list [.val (.str ['a']), .map [(['f'], .one (.str ['x']))]], .val (.num ['1'])]) = 2 := by decide
+
+
+/-! ## The log source -/
+section LogSource
+open SigmaVerif.LogSource
+
+/-- A log source that loaded (it has a category, product or service; any of the four attributes may be the
+empty string) is written so that loading the written form gives back the same log source: no attribute is
+lost or invented, an empty string stays an empty string. -/
+theorem logsource_roundtrip (l : LS) (h : l.nonEmpty = true) : fromDict (toDict l) = some l := by
+  obtain ⟨hc, hp, hs, hd⟩ := lookup_toDict l
+  unfold fromDict
+  simp only [hc, hp, hs, hd]
+  simp only [LS.nonEmpty, Bool.not_eq_true'] at h
+  simp [h]
+
+/-- … hence the dict form is a fixed point of load-and-write. -/
+theorem logsource_dict_fixed_point (l : LS) (h : l.nonEmpty = true) :
+    (fromDict (toDict l)).map toDict = some (toDict l) := by
+  rw [logsource_roundtrip l h]; rfl
+
+/-- A filter meets exactly the same rules after filter and rule were both written and loaded again. -/
+theorem logsource_filter_application_preserved (f r : LS) (hf : f.nonEmpty = true) (hr : r.nonEmpty = true) :
+    (do let f' ← fromDict (toDict f); let r' ← fromDict (toDict r); pure (f'.contains r')) = some (f.contains r) := by
+  rw [logsource_roundtrip f hf, logsource_roundtrip r hr]; rfl
+
+example : LS.nonEmpty { category := some [], product := none, service := none, definition := none } = true := by decide
+
+/-- An empty-string attribute is a value: a filter for category `""`, product `p` does not meet a rule of category
+`c`, product `p`, but the same filter without the category does - a writer that skips empty strings changes
+which rules the filter is applied to. -/
+theorem logsource_empty_string_matters :
+    LS.contains { category := some [], product := some ['p'], service := none, definition := none }
+                { category := some ['c'], product := some ['p'], service := none, definition := none } = false ∧
+    LS.contains { category := none, product := some ['p'], service := none, definition := none }
+                { category := some ['c'], product := some ['p'], service := none, definition := none } = true := by
+  decide
+
+end LogSource
 
 end SigmaVerif.Props.C06
